@@ -350,7 +350,7 @@ def c01_5(cx):
               [r"^function::maybe_changed_after::VerifyResult::changed\(\)$"], "deep_verify_edges")
 
 
-@ob("C01.6", ["C01", "C07"], also=["C03"], nec="'>=' re-executes readers of unchanged fields (C03); '<'/'<=' or a missing comparison hides a write from its readers (C01)", kind="ONLYIF both directions")
+@ob("C01.6", ["C01", "C07"], also=["C03", "C12"], nec="'>=' re-executes readers of unchanged fields (C03); '<'/'<=' or a missing comparison hides a write from its readers (C01)", kind="ONLYIF both directions")
 def c01_6(cx):
     """Leaf maybe_changed_after: input field and tracked field report Changed iff stored revision > revision; interned iff stored generation > requested generation; function (hot / after verify / after re-execution) Changed if changed_at > revision; changed_if(b) is Changed iff b."""
     ci = cx.fn(r"^function::maybe_changed_after::VerifyResult::changed_if$")
@@ -399,7 +399,8 @@ def c01_6(cx):
     newc = r"execute\(.*\)\?\.header\.revisions\.changed_at$"
     for s in cx.some_calls(cold, r"VerifyResult::unchanged_for_memo$", 1, "unchanged_for_memo after re-execution"):
         cx.only_if(cold, s, Cmp(newc, "<=", r"^\$6$", desc="new changed_at <= revision"), "after re-execution: Unchanged only if changed_at <= revision")
-        cx.only_if(cold, s, CallIs(r"MemoHeader::may_be_provisional$", False, [r"execute\(.*\)\?\.header$"]), "after re-execution: Unchanged only if the new memo is final")
+        with cx.only("C01", "C12"):
+            cx.only_if(cold, s, CallIs(r"MemoHeader::may_be_provisional$", False, [r"execute\(.*\)\?\.header$"]), "after re-execution: Unchanged only if the new memo is final (a provisional result always reads as Changed)")
 
 
 @ob("C03.1", ["C03", "C05", "C17"], "a second way into execute (or one not conditioned on failed verification) re-runs bodies whose memo is still valid", kind="WRITERS+ONLYIF")
